@@ -24,7 +24,7 @@ def labels_of(o, der, groots):
     return frozenset()
 
 
-def derive(fn, seeds=None, groots=None, through_int=False, max_load_depth=0, retmap=None):
+def derive(fn, seeds=None, groots=None, through_int=False, max_load_depth=0, retmap=None, through_slots=True):
     """Forward closure.  seeds: {value id: label}.  groots: {global name: label}.
     Returns {value id: frozenset(labels)}; with max_load_depth>0 labels are (label, depth) pairs where depth counts loads."""
     der = {}
@@ -34,13 +34,14 @@ def derive(fn, seeds=None, groots=None, through_int=False, max_load_depth=0, ret
     if groots and max_load_depth:
         g2 = {n: (l, 0) for n, l in groots.items()}
     ops_ok = PTR_OPS + (INT_OPS if through_int else ())
+    slots = {}
     changed = True
     while changed:
         changed = False
         for i in fn.insts():
-            if "id" not in i:
-                continue
             op = i["op"]
+            if "id" not in i and op != "store":
+                continue
             new = set()
             if op == "getelementptr":
                 new |= labels_of(i["base"], der, g2)
@@ -56,6 +57,17 @@ def derive(fn, seeds=None, groots=None, through_int=False, max_load_depth=0, ret
                 for k in retmap(i):
                     if k < len(i.get("args", ())):
                         new |= labels_of(i["args"][k], der, g2)
+            elif op == "store" and through_slots:
+                # a labelled value parked in a local variable (address-taken locals are not promoted to SSA)
+                tgt = i["ops"][1]
+                if tgt.get("k") == "v" and fn.defs.get(tgt["id"], {}).get("op") == "alloca":
+                    ls = labels_of(i["ops"][0], der, g2)
+                    if ls and not ls <= slots.get(tgt["id"], frozenset()):
+                        slots[tgt["id"]] = frozenset(slots.get(tgt["id"], frozenset()) | ls)
+                        changed = True
+                continue
+            elif op == "load" and through_slots and i["ops"][0].get("k") == "v" and i["ops"][0]["id"] in slots and not max_load_depth:
+                new |= slots[i["ops"][0]["id"]]
             elif op == "load" and max_load_depth:
                 for (l, d) in labels_of(i["ops"][0], der, g2):
                     if d + 1 <= max_load_depth:
